@@ -68,6 +68,18 @@ def real_oracle(prog, out):
     return v
 
 
+def real_preds(prog, out):
+    mm = [o for o in out if "outcomes" in o]
+    preds = []
+    if mm and prog["form"] in ("nowait", "del") and prog["timeout"] is not None and not mm[0]["children_left"] \
+            and not mm[0]["broken"] and not mm[0]["broken_after"] \
+            and any(o[0] == "exc" and o[1] == "TimeoutError" for o in mm[0]["outcomes"]):
+        # finding F-a on real processes: the executor was released without waiting, every worker idled out while work was still
+        # pending, nobody is left to respawn one
+        preds.append("all_workers_left_after_executor_released_with_pending")
+    return preds
+
+
 def real_shard(seed, n, tier="quick"):
     import json
     import hypothesis
@@ -109,7 +121,13 @@ def real_shard(seed, n, tier="quick"):
             acc.count("real_form:" + form)
             acc.count("real_point:" + point)
         if v:
-            fails.append({"kind": v[0][0], "detail": v[0][1], "case": case, "where": "real"})
+            preds = real_preds(prog, res["out"])
+            from vlib import findings
+            fid = findings.match(ID, {"kind": v[0][0], "predicates": preds})
+            if fid is not None:
+                acc.count(f"known_hit:{fid}")      # reported through the finding's own replay; the search goes on
+                return
+            fails.append({"kind": v[0][0], "detail": v[0][1], "case": case, "where": "real", "predicates": preds})
             raise AssertionError(v[0][0])
 
     try:
@@ -151,5 +169,6 @@ def replay(case, verbose=False):
             print(res["out"], res["err"][-400:])
         v = real_oracle(prog, res["out"])
         shutil.rmtree(base, ignore_errors=True)
-        return [{"kind": k, "detail": d, "case": case, "predicates": []} for k, d in v]
+        preds = real_preds(prog, res["out"])
+        return [{"kind": k, "detail": d, "case": case, "predicates": preds} for k, d in v]
     return _sim_replay(case, verbose)
